@@ -1021,9 +1021,18 @@ class Engine:
                 raise Unsupported("bare raise outside except")
             return [(st, Raised(cur))]
         out = []
-        for s, v in self.ev(n.exc, st):
+        evs = []
+        for s0, v0 in self.ev(n.exc, st):
+            if isinstance(v0, VUnion):
+                evs.extend(self.split_union(v0, s0))
+            else:
+                evs.append((s0, v0))
+        for s, v in evs:
             if isinstance(v, Raised):
                 out.append((s, v))
+                continue
+            if isinstance(v, VNoneT):
+                out.append((s, self.raise_py(s, TypeError, "exceptions must derive from BaseException")))
                 continue
             if isinstance(v, VClass):
                 res = self.call(v, [], {}, s)
@@ -1083,6 +1092,8 @@ class Engine:
         """Join two single fall-through paths into one state with ite values (keeps path counts linear)."""
         if len(ra) != 1 or len(rb) != 1 or ra[0][1] is not None or rb[0][1] is not None:
             return None
+        if getattr(self.active_contract, "no_merge", False):
+            return None          # keep the paths apart: each query stays free of if-then-else over sequences
         sa, sb = ra[0][0], rb[0][0]
         if sa.frames != sb.frames or sa.events != sb.events and len(sa.events) != len(sb.events):
             return None
